@@ -37,10 +37,10 @@ def pattern(start, n):
 
 
 def bhash(b):
-    h = 0
-    for x in b:
-        h = (h * 257 + x + 1) % MOD
-    return h
+    s2 = 0
+    for i, x in enumerate(b):
+        s2 += (i + 1) * x
+    return [sum(b), s2]
 
 
 def obs_bytes(b):
@@ -106,6 +106,7 @@ class BumbleSide:
         self.conn = Conn(1, 'F0:F0:F0:F0:F0:F0' if name == 'B' else 'F1:F1:F1:F1:F1:F1')
         self.spec = spec
         self.accepted = []
+        self.kinds = []           # channel index -> which code path filed it in le_coc_channels
         self.chans = []           # channel index -> LeCreditBasedChannel
         self.sunk = None          # callback(side, chan_index, data)
 
@@ -116,9 +117,10 @@ class BumbleSide:
     def serve(self, psm):
         self.mgr.create_le_credit_based_server(self.make_spec(psm), self.accepted.append)
 
-    def attach(self, ch):
+    def attach(self, ch, kind):
         idx = len(self.chans)
         self.chans.append(ch)
+        self.kinds.append(kind)
         ch.sink = lambda data, idx=idx: self.sunk(self.name, idx, bytes(data))
 
     def deliver(self, cid, payload):
@@ -133,6 +135,17 @@ class BumbleSide:
     def cids(self, idx):
         ch = self.chans[idx]
         return ch.source_cid, ch.destination_cid
+
+    def routes(self):
+        """for each channel: the index of the channel a K-frame for its source CID / a credit
+        packet for its destination CID is handed to by the manager's tables (None: nobody)"""
+        def index(c):
+            for i, x in enumerate(self.chans):
+                if x is c:
+                    return i
+            return None
+        return [[index(self.mgr.find_channel(self.conn.handle, ch.source_cid)),
+                 index(self.mgr.find_le_coc_channel(self.conn.handle, ch.destination_cid))] for ch in self.chans]
 
 
 class FChan:
@@ -195,8 +208,9 @@ class ForeignSide:
         f = l2cap.L2CAP_Control_Frame.from_bytes(payload)
         mtu, mps, cr = self.spec
         if isinstance(f, l2cap.L2CAP_LE_Flow_Control_Credit):
+            # the packet names the channel by the CID of the endpoint that sent it
             for ch in self.chans:
-                if ch.my_cid == f.cid:
+                if ch.peer_cid == f.cid:
                     ch.tx_credits += f.credits
                     self._pump(ch)
             return
@@ -304,6 +318,9 @@ class SetupFailed(Exception):
     pass
 
 
+KIND = {'le': 'Le', 'enh': 'Enh'}
+
+
 async def _setup(sc, wires, A, B):
     """Open the channels with the real negotiation code; returns after both sides are
     connected.  The channel index is the same on both sides."""
@@ -331,7 +348,7 @@ async def _setup(sc, wires, A, B):
             if A.pending is not None or len(B.accepted) != count:
                 raise SetupFailed('foreign initiator not answered')
             for ch in B.accepted:
-                B.attach(ch)
+                B.attach(ch, KIND[kind] + 'Acceptor')
         else:
             if kind == 'le':
                 t = asyncio.ensure_future(B.mgr.create_le_credit_based_channel(B.conn, B.make_spec(PSM_A)))
@@ -345,7 +362,7 @@ async def _setup(sc, wires, A, B):
                 raise SetupFailed('bumble initiator not answered')
             r = t.result()
             for ch in (r if isinstance(r, list) else [r]):
-                B.attach(ch)
+                B.attach(ch, KIND[kind] + 'Initiator')
         return
 
     def opener(X, psm):
@@ -371,11 +388,11 @@ async def _setup(sc, wires, A, B):
         if len(B.accepted) != len(ra) or len(A.accepted) != len(rb):
             raise SetupFailed('accept count')
         for ca, cb in zip(ra, B.accepted):
-            A.attach(ca)
-            B.attach(cb)
+            A.attach(ca, KIND[kind] + 'Initiator')
+            B.attach(cb, KIND[kind] + 'Acceptor')
         for ca, cb in zip(A.accepted, rb):
-            A.attach(ca)
-            B.attach(cb)
+            A.attach(ca, KIND[kind] + 'Acceptor')
+            B.attach(cb, KIND[kind] + 'Initiator')
     else:
         ta = opener(A, PSM_B)
         await settle()
@@ -388,8 +405,8 @@ async def _setup(sc, wires, A, B):
         if len(B.accepted) != len(ra):
             raise SetupFailed('accept count')
         for ca, cb in zip(ra, B.accepted):
-            A.attach(ca)
-            B.attach(cb)
+            A.attach(ca, KIND[kind] + 'Initiator')
+            B.attach(cb, KIND[kind] + 'Acceptor')
 
 
 def run_impl(sc):
@@ -414,6 +431,8 @@ async def _run_impl(sc):
         return {'setup_error': 'traffic during set-up'}
     n = len(B.chans)
     cids = [(A.cids(i), B.cids(i)) for i in range(n)]
+    tables = {X.name: {'kinds': list(X.kinds), 'cids': [list(X.cids(i)) for i in range(n)], 'routes': X.routes()}
+              for X in (A, B) if isinstance(X, BumbleSide)}
     # which channel a packet on the wire belongs to, by the identifiers negotiated
     def tag(direction, cid, payload, meta=None):
         S = A if direction == 'AB' else B
@@ -506,7 +525,7 @@ async def _run_impl(sc):
     for side, idx, data in sinks:
         sunk[(side, idx)] = sunk.get((side, idx), b'') + data
     return {'n': n, 'cids': cids, 'steps': steps, 'ops': ops, 'written': written, 'sunk': sunk,
-            'drain_done': drain_done, 'exhausted': exhausted,
+            'drain_done': drain_done, 'exhausted': exhausted, 'tables': tables,
             'table_keys': [sorted(B.mgr.le_coc_channels.get(1, {}).keys())]}
 
 
@@ -526,6 +545,14 @@ def oracle(sc, res):
         bad.append((f'{kind}:{tagk}', msg))
 
     n = res['n']
+    # the managers' tables hand a frame / a credit packet for a channel to that channel
+    for side, t in sorted(res['tables'].items()):
+        for i, (fr, cr) in enumerate(t['routes']):
+            if fr != i:
+                fail('tables-frame', f"side {side}: a K-frame for channel {i} (CID {t['cids'][i][0]}) is handed to {fr}")
+            if cr != i:
+                fail('tables-credit', f"side {side}: a credit packet for channel {i} (peer CID {t['cids'][i][1]}, "
+                                      f"own CID {t['cids'][i][0]}, filed by {t['kinds'][i]}) is handed to channel {cr}")
     # ledgers per (channel, direction of data): credits the sender holds according
     # to the wire, and an independent SDU parser of the frames on the wire
     led = {}
@@ -608,6 +635,14 @@ def oracle(sc, res):
 
 
 # ----------------------------------------------------------------------------- model side
+def tables_exprs(res):
+    out = []
+    for side, t in sorted(res['tables'].items()):
+        cds = [f"mkCd {i} {t['kinds'][i]} {t['cids'][i][0]} {t['cids'][i][1]}" for i in range(len(t['kinds']))]
+        out.append((side, f"routes_obs lecoc_keysel [{'; '.join(reversed(cds))}]"))
+    return out
+
+
 def coq_ops(labels):
     out = []
     for l in labels:
@@ -660,7 +695,7 @@ def impl_obs_pair(res, i, idxs):
                 if t[1] == 'F':
                     r.append((0, t[2], tuple(_t(obs_bytes(t[3])))))
                 else:
-                    r.append((1, t[2], (t[3], 0, [])))
+                    r.append((1, t[2], (t[3], [0, 0], [])))
             return r
         sa = [tuple(_t(obs_bytes(d))) for s, j, d in st['sinks'] if s == 'A' and j == i]
         sb = [tuple(_t(obs_bytes(d))) for s, j, d in st['sinks'] if s == 'B' and j == i]
@@ -676,14 +711,16 @@ def norm_model_pair(m):
     out = []
     for ab, ba, sa, sb, dr, flags in m:
         def pk(ps):
-            return [(p[0], p[1], (p[2][0], p[2][1], list(p[2][2]))) for p in ps]
-        out.append((pk(ab), pk(ba), [(x[0], x[1], list(x[2])) for x in sa], [(x[0], x[1], list(x[2])) for x in sb],
+            return [(p[0], p[1], (p[2][0], list(p[2][1]), list(p[2][2]))) for p in ps]
+        out.append((pk(ab), pk(ba), [(x[0], list(x[1]), list(x[2])) for x in sa], [(x[0], list(x[1]), list(x[2])) for x in sb],
                     tuple(dr)))
     return out
 
 
 def foreign_model_exprs(sc, res):
-    """ep_run of Bumble's endpoint (side B) on the events it saw, one per channel."""
+    """ep_run of Bumble's endpoint (side B) on the events it saw, one per channel.
+    The frames the foreign peer sent are given to the model as slices of the encoded
+    test-pattern SDU they were cut from (each SDU is bound once by a let)."""
     exprs = []
     meta = []
     for i in range(res['n']):
@@ -691,6 +728,7 @@ def foreign_model_exprs(sc, res):
         evs = []
         idxs = []
         off = 0
+        sdus = {}
         for k, st in enumerate(res['steps']):
             op = st['op']
             if op[0] == 'W':
@@ -702,14 +740,16 @@ def foreign_model_exprs(sc, res):
                 t = st['delivered']
                 if t[1] == 'F':
                     s0, sl, k0, n0 = t[4]
-                    evs.append(f'ERecv (PFrame {t[2]} (ztake {n0} (zdrop {k0} (enc_sdu (mk_data {s0} {sl})))))')
+                    name = sdus.setdefault((s0, sl), f'sdu{len(sdus)}')
+                    evs.append(f'ERecv (PFrame {t[2]} (ztake {n0} (zdrop {k0} {name})))')
                 else:
                     evs.append(f'ERecv (PCredit {t[2]} {t[3]})')
                 idxs.append(k)
         ma, pa, ca = sc['spec_a']
         mb, pb, cb = sc['spec_b']
         init = f'(ep_init KDst {b_src} {b_dst} {ca} {ma} {pa} {cb})'
-        exprs.append(f"map obs_eres (snd (ep_run {init} [{'; '.join(evs)}]))")
+        lets = ''.join(f'let {name} := enc_sdu (mk_data {s0} {sl}) in ' for (s0, sl), name in sdus.items())
+        exprs.append(f"{lets}map obs_eres (snd (ep_run {init} [{'; '.join(evs)}]))")
         meta.append((i, idxs))
     return exprs, meta
 
@@ -725,7 +765,7 @@ def impl_obs_foreign(res, i, idxs):
             if t[1] == 'F':
                 r.append((0, t[2], tuple(_t(obs_bytes(t[3])))))
             else:
-                r.append((1, t[2], (t[3], 0, [])))
+                r.append((1, t[2], (t[3], [0, 0], [])))
         sb = [tuple(_t(obs_bytes(d))) for s, j, d in st['sinks'] if s == 'B' and j == i]
         out.append((r, sb, st['drained'][i][1]))
     return out
@@ -734,8 +774,8 @@ def impl_obs_foreign(res, i, idxs):
 def norm_model_foreign(m):
     out = []
     for pk, sk, dr, flags in m:
-        out.append(([(p[0], p[1], (p[2][0], p[2][1], list(p[2][2]))) for p in pk],
-                    [(x[0], x[1], list(x[2])) for x in sk], dr))
+        out.append(([(p[0], p[1], (p[2][0], list(p[2][1]), list(p[2][2]))) for p in pk],
+                    [(x[0], list(x[1]), list(x[2])) for x in sk], dr))
     return out
 
 
@@ -761,7 +801,7 @@ def write_sizes(rng, peer, big):
              2 * mtu, 2 * mtu + 1, 3 * mtu + 5,
              # exactly k frames: k around the credit count and the replenish threshold
              max(1, (cr // 2) * mps - 2), max(1, cr * mps - 2), max(1, (cr + 1) * mps - 2)]
-    lim = 200000 if big else 6000
+    lim = 70000 if big else 6000
     cands = [c for c in cands if 1 <= c <= lim] or [1]
     return cands
 
@@ -781,11 +821,13 @@ def gen_scenario(rng, big=False):
         sc['cid_base'] = rng.choice([0x40, 0x41, 0x50, 0x7E - 1, 0x60])
         sc['policy'] = rng.choice(['each', 'half', 'zero'])
         sc['frame_sizes'] = rng.choice([[None], [None], [1, None], [1, 1, None, 3], [2, None], [None, 5, 1]])
+        if big:
+            sc['frame_sizes'] = [None]      # tiny frames on 64 KB SDUs make the model quadratic
     nchan = sc['count'] * (2 if sc.get('crossed') else 1)
     nops = rng.choice([1, 2, 4, 8, 16] if big else [2, 4, 8, 16, 30, 60])
     ops = []
     total = 0
-    cap = 400000 if big else 30000
+    cap = 140000 if big else 12000
     dirs = rng.choice([['A'], ['B'], ['A', 'B'], ['A', 'B']])
     for _ in range(nops):
         x = rng.below(100)
@@ -961,11 +1003,23 @@ def evaluate(ctx, scs, label):
             continue
         foreign = sc['mode'] == 'foreign'
         ex, meta = (foreign_model_exprs if foreign else pair_model_exprs)(sc, res)
-        index.append((sc, res, len(exprs), len(ex), meta, foreign))
+        tex = tables_exprs(res)
+        index.append((sc, res, len(exprs), len(ex), meta, foreign, tex))
         exprs.extend(ex)
-    vals = ctx.coq_eval(['Model.LeCoc'], exprs, shard=max(8, min(60, len(exprs) // 8 + 1)))
-    for sc, res, start, cnt, meta, foreign in index:
+        exprs.extend(e for _, e in tex)
+    ctx.log(f'{label}: {len(scs)} scenarios run on the implementation, {len(exprs)} model runs to evaluate')
+    vals = spread_eval(ctx, exprs)
+    ctx.log(f'{label}: model evaluated')
+    for sc, res, start, cnt, meta, foreign, tex in index:
         check_scenario(ctx, sc, res, vals[start:start + cnt], meta, foreign)
+        for (side, _), mv in zip(tex, vals[start + cnt:start + cnt + len(tex)]):
+            def un(o):
+                return o[1] if isinstance(o, tuple) else None
+            mm = [[un(a), un(b)] for a, b in reversed(mv)]
+            if mm != res['tables'][side]['routes']:
+                ctx.disagree('ChannelManager tables vs Model/LeCoc.v file_all/route',
+                             {'scenario': sc, 'side': side, 'channels': res['tables'][side]}, mm,
+                             res['tables'][side]['routes'])
     for sc, res in zip(scs, results):
         if 'setup_error' in res:
             continue
@@ -994,6 +1048,35 @@ def evaluate(ctx, scs, label):
                                f"spec_b={sc['spec_b']} cids={res['cids']}]", sc)
 
 
+def spread_eval(ctx, exprs, nshards=16):
+    """coq_eval cuts the list into contiguous shards; order it so that every shard gets
+    its share of the long expressions (cost ~ text length)."""
+    if not exprs:
+        return []
+    size = -(-len(exprs) // nshards)
+    order = sorted(range(len(exprs)), key=lambda i: (-len(exprs[i]), i))
+    slots = [[] for _ in range(nshards)]
+    for r, i in enumerate(order):
+        k = r % nshards
+        if len(slots[k]) >= size:
+            k = min(range(nshards), key=lambda j: len(slots[j]))
+        slots[k].append(i)
+    perm = [i for sl in slots for i in sl]
+    # pad shards implicitly: coq_eval slices by `size`, so lay the slots out at that stride
+    laid = []
+    for sl in slots:
+        laid.extend(sl)
+        laid.extend([None] * (size - len(sl)))
+    while laid and laid[-1] is None:
+        laid.pop()
+    vals = ctx.coq_eval(['Model.LeCoc'], [exprs[i] if i is not None else '0' for i in laid], shard=size)
+    out = [None] * len(exprs)
+    for i, v in zip(laid, vals):
+        if i is not None:
+            out[i] = v
+    return out
+
+
 def run(ctx):
     ctx.rule = ('scenario = mode (two Bumble managers, optionally with crossing opens so that the two sides '
                 'allocate different CIDs / Bumble against an independent peer with offset CIDs, own frame sizes '
@@ -1013,9 +1096,9 @@ def run(ctx):
                     'the in-memory host shim of the harness stands for Host/Controller/LocalLink (covered by C04-C06)']
     rng = ctx.rng
     scs = load_corpus(ctx)
-    for _ in range(ctx.n(140, 2500)):
+    for _ in range(ctx.n(100, 2500)):
         scs.append(gen_scenario(rng))
-    for _ in range(ctx.n(4, 60)):
+    for _ in range(ctx.n(3, 60)):
         scs.append(gen_scenario(rng, big=True))
     evaluate(ctx, scs, 'generated')
 
